@@ -281,6 +281,34 @@ def cli_worker(kp, job):
                 if got3 != got:
                     viol.append(('cli-round-trip', f'ekern -> kern -> ekern does not return the original ekern (exit {rc3}, stderr {se3[-120:]!r})',
                                  {'text': texts['a.krn']}))
+        # in place: the output path names the input file (an ekern file converted where it lies, through the CLI and the API)
+        if got is not None:
+            import shutil as _sh
+            E_ = __import__('kernpy.core.exporter', fromlist=['x'])
+            conv_ = getattr(kp, 'ekern_to_krn', None) or getattr(E_, 'ekern_to_krn')
+            wantk = kp.get_kern_from_ekern(got)
+            for how in ('cli', 'api', 'api-link'):
+                ip = os.path.join(tmp, f'inplace_{how}.ekrn')
+                with open(ip, 'w', encoding='utf-8', newline='') as f_:
+                    f_.write(got)
+                outp = ip
+                try:
+                    if how == 'cli':
+                        cli(['--ekern2kern', '--input_path', ip, '--output_path', ip], tmp)
+                    elif how == 'api':
+                        conv_(ip, ip)
+                    else:
+                        outp = os.path.join(tmp, 'inplace_link.ekrn')
+                        if os.path.lexists(outp):
+                            os.remove(outp)
+                        os.link(ip, outp)          # another name of the same file
+                        conv_(ip, outp)
+                    res_ = open(outp, encoding='utf-8', newline='').read()
+                except Exception as e_:
+                    res_ = 'raise:' + type(e_).__name__
+                if res_ != wantk:
+                    viol.append(('cli-ekern2kern', f'in place ({how}): converting an ekern file onto itself leaves {res_[:60]!r}... instead of what get_kern_from_ekern '
+                                                   f'produces for its content', {'text': got, 'how': how}))
         records.append(engine.rec('cli-single', viol=viol, kind='cli-single', key=('cli', texts['a.krn']),
                                   sample={'input': texts['a.krn'], 'ekern': got} if idx == 0 else None))
         # directory mode
